@@ -365,3 +365,122 @@ def reaching_defs(cfg, params=()):
                 if s not in work:
                     work.append(s)
     return IN
+
+
+# ------------------------------------------------- boolean-atom path feasibility
+
+def _literals(e):
+    """Decompose a test into (kind, [(atom_text, polarity)]): kind 'and'/'or'/'lit'."""
+    def lit(x):
+        pol = True
+        while isinstance(x, ast.UnaryOp) and isinstance(x.op, ast.Not):
+            pol = not pol
+            x = x.operand
+        return (norm(x), pol, x)
+    if isinstance(e, ast.BoolOp):
+        return ('and' if isinstance(e.op, ast.And) else 'or'), [lit(v) for v in e.values]
+    return 'lit', [lit(e)]
+
+
+def _eval3(e, val):
+    kind, lits = _literals(e)
+    vals = []
+    for text, pol, node in lits:
+        if isinstance(node, ast.BoolOp):
+            sub = _eval3(node, val)
+            vals.append(None if sub is None else (sub if pol else not sub))
+        elif text in val:
+            vals.append(val[text] if pol else not val[text])
+        elif isinstance(node, ast.Constant):
+            vals.append(bool(node.value) if pol else not bool(node.value))
+        else:
+            vals.append(None)
+    if kind == 'lit':
+        return vals[0]
+    if kind == 'and':
+        if any(v is False for v in vals):
+            return False
+        if all(v is True for v in vals):
+            return True
+        return None
+    if any(v is True for v in vals):
+        return True
+    if all(v is False for v in vals):
+        return False
+    return None
+
+
+def _assume(e, branch, val):
+    """Valuation extended with what taking `branch` of test `e` implies (only definite implications)."""
+    kind, lits = _literals(e)
+    new = dict(val)
+    simple = [(t, p) for t, p, n in lits if not isinstance(n, (ast.BoolOp, ast.Constant))]
+    if kind == 'lit' and len(simple) == 1:
+        t, p = simple[0]
+        new[t] = branch if p else (not branch)
+    elif kind == 'and' and branch is True and len(simple) == len(lits):
+        for t, p in simple:
+            new[t] = p
+    elif kind == 'or' and branch is False and len(simple) == len(lits):
+        for t, p in simple:
+            new[t] = not p
+    elif kind == 'and' and branch is False:
+        # if all but one literal are known true, the remaining one is false
+        unknown = [(t, p) for t, p in simple if t not in val]
+        known_true = [1 for t, p in simple if t in val and (val[t] if p else not val[t])]
+        if len(simple) == len(lits) and len(unknown) == 1 and len(known_true) == len(lits) - 1:
+            t, p = unknown[0]
+            new[t] = not p
+    elif kind == 'or' and branch is True:
+        unknown = [(t, p) for t, p in simple if t not in val]
+        known_false = [1 for t, p in simple if t in val and not (val[t] if p else not val[t])]
+        if len(simple) == len(lits) and len(unknown) == 1 and len(known_false) == len(lits) - 1:
+            t, p = unknown[0]
+            new[t] = p
+    return new
+
+
+def feasible_reach(cfg, start, target, avoid=(), max_states=20000):
+    """Is `target` reachable from `start` without entering `avoid`, on a path whose branch decisions are
+    consistent for repeated tests of the same (unmodified) sub-expressions?  Over-approximates feasibility:
+    returns False only when every CFG path contradicts itself on some boolean atom."""
+    avoid = set(avoid)
+    seen = set()
+    stack = [(start, ())]
+    nstates = 0
+    while stack:
+        n, valt = stack.pop()
+        key = (n, valt)
+        if key in seen:
+            continue
+        seen.add(key)
+        nstates += 1
+        if nstates > max_states:
+            return True
+        if n is target and n is not start:
+            return True
+        val = dict(valt)
+        # redefinitions invalidate atoms mentioning the name
+        ds = node_defs(n)
+        if ds:
+            for k in list(val):
+                if any(_mentions(k, d) for d in ds):
+                    del val[k]
+        for s, lab in n.succs:
+            if s in avoid:
+                continue
+            v2 = val
+            if n.kind in ('test', 'while') and lab in ('true', 'false'):
+                t = n.ast.test
+                cur = _eval3(t, val)
+                br = (lab == 'true')
+                if cur is not None and cur != br:
+                    continue
+                v2 = _assume(t, br, val)
+            stack.append((s, tuple(sorted(v2.items()))))
+    return False
+
+
+def _mentions(atom_text, name):
+    import re
+    return re.search(r'(?<![A-Za-z0-9_.])%s(?![A-Za-z0-9_])' % re.escape(name), atom_text) is not None
